@@ -48,6 +48,7 @@ type PropConf struct {
 	Bounds      map[string]string `json:"bounds_text"`
 	FmtInts     bool              `json:"fmt_ints"`
 	HashInj     bool              `json:"hash_injective"`
+	SQLParser   bool              `json:"sql_parser"` // run the vitess parser's package initialisers (harnesses that hand SQL text to the engine)
 	MathBig     bool              `json:"math_big"` // interpret math/big (and run apd's table-building initialisers: about 20 s of start-up)
 	StubText    []string          `json:"stub_text"`
 	Sched       bool              `json:"sched"`            // harnesses start goroutines: native builds use the schedule-replay instrumentation
@@ -367,6 +368,7 @@ func cmdCheck(args []string) int {
 		return 2
 	}
 	sx.EnableBig = pc.MathBig
+	sx.EnableParser = pc.SQLParser
 	findings := loadFindings(verif)
 	evDir := envOr("VERIF_EVIDENCE", filepath.Join(verif, "evidence")) // seed evaluation writes elsewhere
 	evPath := filepath.Join(evDir, prop+".json")
